@@ -19,7 +19,7 @@ package runner
 // ---- C06 / C07: commands run one at a time, in list order, and stop at the first failure
 // compiled: the set of jobs produced by CompileCommand (closed under Next)
 //@ ghost compiled map[*executor.Job]bool
-//@ pred compiledClosed() := forall j *executor.Job :: compiled[j] ==> j != nil && j.Vars != nil && (j.Next != nil ==> compiled[j.Next])
+//@ pred compiledClosed() := forall j *executor.Job :: compiled[j] ==> j != nil && j.Vars != nil && j.Env != nil && (j.Next != nil ==> compiled[j.Next])
 // passed: a command's outcome lets the task continue
 //@ pred passed(e error, t *task.Task) := e == nil || (exitOK(e) && t.AllowFailure)
 
@@ -53,17 +53,34 @@ package runner
 
 //@ func (*TaskRunner).contextForTask
 //@   requires runnerOK(r) && t != nil
-//@   modifies runN, runJob, runErr, ExecutionContext.startupError
+//@   modifies runN, runJob, runErr, ExecutionContext.startupError, onceDone
 //@   ensures #log-prefix runN >= old(runN) && (forall i int :: i < old(runN) ==> runJob[i] == old(runJob[i]) && runErr[i] == old(runErr[i]))
-//@   ensures err == nil ==> c != nil && c.Env != nil && c.Variables != nil
+//@   ensures err == nil ==> ctxOK(c)
+//@   ensures #C14.up-before-anything err == nil ==> onceDone[c.onceUp] && c.startupError == nil
 
 //@ func (*ExecutionContext).After
-//@   requires c != nil
+//@   requires ctxOK(c)
 //@   modifies runN, runJob, runErr
 //@   ensures #log-prefix runN >= old(runN) && (forall i int :: i < old(runN) ==> runJob[i] == old(runJob[i]) && runErr[i] == old(runErr[i]))
+//@   loop 1 "range c.after"
+//@     invariant #same c == c0 && ctxOK(c)
+//@     invariant #log-prefix runN >= old(runN) && (forall i int :: i < old(runN) ==> runJob[i] == old(runJob[i]) && runErr[i] == old(runErr[i]))
+//@ func (*ExecutionContext).Down$1
+//@   requires ctxOK(c)
+//@   modifies runN, runJob, runErr
+//@   ensures #log-prefix runN >= old(runN) && (forall i int :: i < old(runN) ==> runJob[i] == old(runJob[i]) && runErr[i] == old(runErr[i]))
+//@   loop 1 "range c.down"
+//@     invariant #same c == c0 && ctxOK(c)
+//@     invariant #log-prefix runN >= old(runN) && (forall i int :: i < old(runN) ==> runJob[i] == old(runJob[i]) && runErr[i] == old(runErr[i]))
+//@ func (*ExecutionContext).Down
+//@   requires ctxOK(c)
+//@   modifies runN, runJob, runErr, onceDone
+//@   ensures #log-prefix runN >= old(runN) && (forall i int :: i < old(runN) ==> runJob[i] == old(runJob[i]) && runErr[i] == old(runErr[i]))
+//@   ensures #C14.down-fired onceDone[c.onceDown]
+//@   ensures #C14.down-once old(onceDone[c.onceDown]) ==> runN == old(runN)
 
 //@ func (*TaskCompiler).CompileCommand
-//@   requires tc != nil && executionCtx != nil && tc.variables != nil && vars != nil && compiledClosed()
+//@   requires tc != nil && executionCtx != nil && tc.variables != nil && vars != nil && env != nil && compiledClosed()
 //@   modifies compiled
 //@   ensures result#1 == nil ==> result != nil && fresh(result) && result.Vars != nil && result.Next == nil && result.Timeout == timeout && result.Env == env && result.Stdin == stdin && result.Stdout == stdout && result.Stderr == stderr
 //@   ensures result#1 == nil ==> compiled[result]
@@ -133,25 +150,25 @@ package runner
 //@   ensures compiledClosed()
 
 //@ func (*TaskRunner).before
-//@   requires runnerOK(r) && t != nil && execContext != nil && vars != nil && compiledClosed()
+//@   requires runnerOK(r) && t != nil && execContext != nil && vars != nil && env != nil && compiledClosed()
 //@   modifies runN, runJob, runErr, compiled, executor.Job.Dir, executor.DefaultExecutor.*
 //@   ensures #log-prefix runN >= old(runN) && (forall i int :: i < old(runN) ==> runJob[i] == old(runJob[i]) && runErr[i] == old(runErr[i]))
 //@   ensures #C06.before-all-ok result == nil ==> runN == old(runN) + len(t.Before) && (forall i int :: old(runN) <= i && i < runN ==> runErr[i] == nil)
 //@   ensures #C06.before-stops-at-first-failure result != nil ==> runN <= old(runN) + len(t.Before) && (forall i int :: old(runN) <= i && i + 1 < runN ==> runErr[i] == nil)
 //@   ensures compiledClosed()
 //@   loop 1 "range t.Before"
-//@     invariant #same r == r0 && t == t0 && execContext == execContext0 && runnerOK(r) && t != nil && execContext != nil && compiledClosed()
+//@     invariant #same r == r0 && t == t0 && execContext == execContext0 && env == env0 && vars == vars0 && runnerOK(r) && t != nil && execContext != nil && compiledClosed()
 //@     invariant #log-prefix forall i int :: i < old(runN) ==> runJob[i] == old(runJob[i]) && runErr[i] == old(runErr[i])
 //@     invariant #C06.count runN == old(runN) + rangeindex + 1
 //@     invariant #C06.all-ok forall i int :: old(runN) <= i && i < runN ==> runErr[i] == nil
 
 //@ func (*TaskRunner).after
-//@   requires runnerOK(r) && t != nil && execContext != nil && vars != nil && compiledClosed()
+//@   requires runnerOK(r) && t != nil && execContext != nil && vars != nil && env != nil && compiledClosed()
 //@   modifies runN, runJob, runErr, compiled, executor.Job.Dir, executor.DefaultExecutor.*
 //@   ensures #log-prefix runN >= old(runN) && runN <= old(runN) + len(t.After) && (forall i int :: i < old(runN) ==> runJob[i] == old(runJob[i]) && runErr[i] == old(runErr[i]))
 //@   ensures compiledClosed()
 //@   loop 1 "range t.After"
-//@     invariant #same r == r0 && t == t0 && execContext == execContext0 && runnerOK(r) && t != nil && execContext != nil && compiledClosed()
+//@     invariant #same r == r0 && t == t0 && execContext == execContext0 && env == env0 && vars == vars0 && runnerOK(r) && t != nil && execContext != nil && compiledClosed()
 //@     invariant #log-prefix forall i int :: i < old(runN) ==> runJob[i] == old(runJob[i]) && runErr[i] == old(runErr[i])
 //@     invariant #C06.count runN >= old(runN) && runN <= old(runN) + rangeindex + 1
 
@@ -166,6 +183,7 @@ package runner
 //@ ghost gCompileErr error
 //@ ghost gStartErr error
 //@ ghost gExecErr error
+//@ ghost gOutErr error
 
 //@ func (*TaskRunner).Run
 //@   waive safe.close "C12 (cancellation safety) is not claimed: with two runs in flight a Cancel makes both close doneCh"
@@ -174,6 +192,14 @@ package runner
 //@   ensures #C07.success-records-zero result == nil && !t.Skipped && !old(t.Errored) ==> t.ExitCode == 0 && !t.Errored
 //@   ensures #C07.execute-failure-reported calls(execute) == 1 && gExecErr != nil ==> result != nil
 //@   ensures #C06.skipped-ran-nothing-else calls(checkTaskCondition) == 1 && !gCondMet && gCondErr == nil ==> result == nil && t.Skipped && calls(before) == 0 && calls(CompileTask) == 0 && calls(execute) == 0 && calls(after) == 0
+//@   ensures #C14.context-after-once calls(NewTaskOutput) == 1 && gOutErr == nil ==> calls(After) == 1
+//@   ensures #C14.context-after-at-most-once calls(After) <= 1 && calls(contextForTask) <= 1
+//@   callsite contextForTask
+//@     requires #C14.context-resolved-once calls(contextForTask) == 0
+//@   callsite NewTaskOutput
+//@     ghost gOutErr = result#1
+//@   callsite After
+//@     requires #C14.after-once calls(After) == 0 && calls(contextForTask) == 1
 //@   callsite checkTaskCondition
 //@     ghost gCondMet = result
 //@     ghost gCondErr = result#1
@@ -200,12 +226,51 @@ package runner
 //@ func WithQuote
 //@   nomod
 
-// ---- execution-context hooks (C14) as used by contextForTask
-//@ func (*ExecutionContext).Up
-//@   requires c != nil
+// ---- execution-context hooks (C14)
+//@ pred ctxOK(c *ExecutionContext) := c != nil && c.Env != nil && c.Variables != nil
+//@ func (*ExecutionContext).runServiceCommand
+//@   requires ctxOK(c)
+//@   modifies runN, runJob, runErr
+//@   ensures #log-prefix runN >= old(runN) && runN <= old(runN) + 1 && (forall i int :: i < old(runN) ==> runJob[i] == old(runJob[i]) && runErr[i] == old(runErr[i]))
+//@   ensures #C14.service-result runN == old(runN) + 1 ==> runErr[old(runN)] == err
+
+// the body handed to onceUp.Do: runs every `up` command; a failure of any of them is remembered
+//@ func (*ExecutionContext).Up$1
+//@   ghostlocal anyFailed bool
+//@   requires ctxOK(c)
 //@   modifies runN, runJob, runErr, c.startupError
 //@   ensures #log-prefix runN >= old(runN) && (forall i int :: i < old(runN) ==> runJob[i] == old(runJob[i]) && runErr[i] == old(runErr[i]))
+//@   ensures #C14.up-failure-remembered anyFailed ==> c.startupError != nil
+//@   ensures #C14.up-success-keeps-nil !anyFailed ==> c.startupError == old(c.startupError)
+//@   loop 1 "range c.up"
+//@     invariant #same c == c0 && ctxOK(c)
+//@     invariant #log-prefix runN >= old(runN) && (forall i int :: i < old(runN) ==> runJob[i] == old(runJob[i]) && runErr[i] == old(runErr[i]))
+//@     invariant #C14.up-failure-remembered anyFailed ==> c.startupError != nil
+//@     invariant #C14.up-success-keeps-nil !anyFailed ==> c.startupError == old(c.startupError)
+//@   callsite runServiceCommand
+//@     ghost anyFailed = anyFailed || result != nil
+
+//@ func (*ExecutionContext).Up
+//@   requires ctxOK(c)
+//@   modifies runN, runJob, runErr, c.startupError, onceDone
+//@   ensures #log-prefix runN >= old(runN) && (forall i int :: i < old(runN) ==> runJob[i] == old(runJob[i]) && runErr[i] == old(runErr[i]))
+//@   ensures #C14.up-fired onceDone[c.onceUp] && (forall o *sync.Once :: old(onceDone[o]) ==> onceDone[o])
+//@   ensures #C14.up-once old(onceDone[c.onceUp]) ==> runN == old(runN) && c.startupError == old(c.startupError)
+//@   ensures #C14.up-error-to-every-caller result == c.startupError
 //@ func (*ExecutionContext).Before
-//@   requires c != nil
+//@   requires ctxOK(c)
 //@   modifies runN, runJob, runErr
 //@   ensures #log-prefix runN >= old(runN) && (forall i int :: i < old(runN) ==> runJob[i] == old(runJob[i]) && runErr[i] == old(runErr[i]))
+//@   loop 1 "range c.before"
+//@     invariant #same c == c0 && ctxOK(c)
+//@     invariant #log-prefix runN >= old(runN) && (forall i int :: i < old(runN) ==> runJob[i] == old(runJob[i]) && runErr[i] == old(runErr[i]))
+
+//@ func (*TaskRunner).Finish
+//@   requires r != nil
+//@   modifies *
+//@ func (*TaskRunner).Cancel
+//@   requires r != nil
+//@   modifies *
+//@ func NewTaskRunner
+//@   modifies *
+//@   ensures result#1 == nil ==> result != nil
